@@ -27,13 +27,9 @@ RS = "lace::runtime::RunState"
 
 
 def handlers(ctx):
-    tab = None
-    for n, f in ctx.prog.fns.items():
-        if n.endswith("RunState::OP_TABLE") and f.bkind == "const":
-            tab = [s["r"]["a"].get("resolved") or s["r"]["a"].get("fn") for blk in f.blocks for s in blk["stmts"]
-                   if s["k"] == "assign" and s["r"]["k"] == "cast" and "ReifyFnPointer" in s["r"].get("ck", "")]
-    ctx.need(tab is not None and len(tab) == 16, "16-entry dispatch table const")
-    return tab
+    d = kit.opcode_dispatch(ctx.prog, ctx.fn(EXEC))
+    ctx.need(d is not None and len(d["handlers"]) == 16, "the 16-way opcode dispatch of execute (a table of 16 handlers, or a match with one handler call per opcode)")
+    return d["handlers"]
 
 
 def run(ctx):
@@ -45,28 +41,21 @@ def run(ctx):
     # ------------------------------------------------------------------ R1: dispatch
     ctx.rule("C02.R1", "execute indexes the 16-entry table with bits 15:12", floor=1)
     ex = ctx.fn(EXEC)
-    idx = None
-    for b in sorted(ex.live_blocks()):
-        t = ex.term(b)
-        if t["k"] == "assert" and t["ak"] == "BoundsCheck":
-            idx = ex.expr(t["ops"][1], 10)
-    ctx.need(idx is not None, "table index in execute")
+    disp = kit.opcode_dispatch(prog, ex)
+    idx = disp["index"]
+    ctx.need(idx is not None, "the expression execute dispatches on")
     f = bits.instr_field(idx, lambda e: e[0] == "arg" and e[1] == 2)
-    ctx.instance(1, {"index": expr_str(idx)})
+    ctx.instance(1, {"index": expr_str(idx), "form": disp["form"]})
     ok = f == (12, 4, False)
     ctx.oblig(ok, {"opcode field": f}, "bits 15:12")
     if not ok:
         ctx.violation("opcode-field", ex.file_line(), "execute dispatches on `%s` = field %s, not on bits 15:12" % (expr_str(idx), f))
-    # the indirect call passes (self, instr) unchanged
-    for b, t, c in ex.calls(live_only=True):
-        pass
-    ind = [t for b in ex.live_blocks() for t in [ex.term(b)] if t["k"] == "call" and callee_of(t) is None]
-    ctx.need(len(ind) == 1, "one indirect call in execute")
-    a = [expr_str(ex.expr(x, 6)) for x in ind[0]["args"]]
-    ok = a == ["&*self", "instr"] or (len(a) == 2 and "self" in a[0] and a[1] == "instr")
-    ctx.oblig(ok, {"handler arguments": a}, "(self, instr)")
-    if not ok:
-        ctx.violation("handler-args", ex.file_line(), "the handler is called with %s instead of (self, instr)" % a)
+    # every handler call passes (self, instr) unchanged
+    for a in disp["args"]:
+        ok = a == ["&*self", "instr"] or (len(a) == 2 and "self" in a[0] and a[1] == "instr")
+        ctx.oblig(ok, {"handler arguments": a}, "(self, instr)")
+        if not ok:
+            ctx.violation("handler-args", ex.file_line(), "the handler is called with %s instead of (self, instr)" % a)
     ctx.finish_rule()
 
     # ------------------------------------------------------------------ R2: decode signatures
@@ -124,7 +113,7 @@ def run(ctx):
     ctx.finish_rule()
 
     # ------------------------------------------------------------------ R4: wrapping arithmetic (panic ledger)
-    L = run_ledger(ctx, "C02.R4", "no checked arithmetic on machine words below execute (closed panic ledger)", [EXEC], floor=40,
+    L = run_ledger(ctx, "C02.R4", "no checked arithmetic on machine words below execute (closed panic ledger)", [EXEC], floor=30,
                    stop=["lace::output::Output::print_registers", "lace::output::Output::print_decimal", "lace::output::Output::print",
                          "lace::output::Output::start_new_line", "lace::term::read_byte"],
                    only=lambda s: s.fn.name.startswith("lace::runtime::") or s.fn.name.startswith("lace::features::"))
@@ -264,7 +253,10 @@ def run(ctx):
     tree = formula.map_tree(tree, lambda c: kit.resolve_promoteds(prog, c))
     bad = None
     ncell = 0
-    for val in (0, 1, 2, 0x7FFE, 0x7FFF, 0x8000, 0x8001, 0xFFFE, 0xFFFF):
+    # decided on all 65,536 values of the result word (cheap, and free of any premise about which constants the code compares with)
+    conds = formula.tree_conditions(tree)
+    cmp_only = all(_cmp_only(c) for c in conds)
+    for val in range(0x10000):
         ncell += 1
         try:
             lab = formula.eval_decision(tree, {"args": {"val": val, 2: val}})
@@ -277,13 +269,7 @@ def run(ctx):
         if got != want:
             bad = (val, "%s, the ISA says %s" % (got, want))
             break
-    # premise for the cell argument: the value is only compared (with constants), possibly after a cast
-    conds = formula.tree_conditions(tree)
-    cmp_only = all(_cmp_only(c) for c in conds)
-    ctx.instance(1, {"set_flags conditions": [expr_str(c, 80) for c in conds], "cells": ncell})
-    ctx.oblig(cmp_only, {"premise": "value only compared"}, "structure of the conditions")
-    if not cmp_only:
-        ctx.violation("flags-not-comparison", sf.file_line(), "set_flags does more than compare the value; its N/Z/P table cannot be decided structurally: %s" % [expr_str(c, 80) for c in conds])
+    ctx.instance(1, {"set_flags conditions": [expr_str(c, 80) for c in conds], "cells": ncell, "domain": "all 65,536 values", "comparisons only": cmp_only})
     ctx.instance(1)
     ctx.oblig(bad is None, {"N/Z/P": "sign of the value as i16"}, "decision structure on boundary cells")
     if bad:
